@@ -440,6 +440,23 @@ def run_shard(shard, tier, seed, rec):
     elif name == "subclass":
         from metador_core.plugins import harvesters, packers, schemas, widgets
 
+        # the group of plugin groups itself: references of other groups name no plugin group
+        from metador_core.plugins import plugingroups
+
+        for grp in (schemas, harvesters, packers, widgets):
+            gref = next((r for r in plugingroups.keys() if r.name == grp.name), None)
+            if gref is None:
+                continue
+            for foreign in (schemas.PluginRef(name=grp.name, version=tuple(gref.version)),
+                            PluginRef(group="vt-some-other-group", name=grp.name, version=tuple(gref.version))):
+                try:
+                    hit = plugingroups.get(foreign)
+                except Exception:  # noqa: BLE001
+                    hit = None
+                if hit is not None or foreign in plugingroups:
+                    rec.fail("C16:group-installed:foreign-group-reference-resolved", dict(kind="installed-foreign", group=grp.name),
+                             f"plugingroups.get({foreign!r}) -> {type(hit).__name__}, in -> {foreign in plugingroups}", "None / False")
+            rec.case(nt_key=("foreign-installed", grp.name), classes=["foreign_reference_installed_groups"], sample=None)
         for grp in (schemas, harvesters, packers, widgets):
             for ref in list(grp.keys()):
                 v = tuple(ref.version)
